@@ -272,7 +272,14 @@ func stateRows(s State, table string) []rm.Row {
 func (h *History) Judge(k int, rc *Recovered) Verdict {
 	base, inCommit, losers := h.Expected(k)
 	if rc.Failure != "" {
-		return Verdict{C01: []string{rc.Failure}}
+		v := Verdict{C01: []string{rc.Failure}}
+		if rc.DB != nil && len(h.losersAt(k)) > 0 {
+			// the restart itself succeeded but a table cannot be read (a statement aborts or panics on it) while transactions were
+			// unfinished at the crash: leftovers of a loser (delete marks, half-undone rows) are also an effect of an uncommitted
+			// transaction, so the observation counts for C02 as well
+			v.C02 = []string{rc.Failure + " (unfinished transactions at the crash point: leftover of a loser)"}
+		}
+		return v
 	}
 	cands := []State{base}
 	names := []string{"base"}
@@ -413,4 +420,22 @@ func stackOf(id string) string {
 		}
 	}
 	return "goroutine gone"
+}
+
+// losersAt returns the transactions that had written something but had neither committed nor finished aborting at crash point k.
+func (h *History) losersAt(k int) []*Txn {
+	var out []*Txn
+	for _, t := range h.Txns {
+		if len(t.Stmts) == 0 || t.Begin > k {
+			continue
+		}
+		if t.CommitRet >= 0 && t.CommitRet <= k {
+			continue
+		}
+		if t.AbortRet >= 0 && t.AbortRet <= k {
+			continue
+		}
+		out = append(out, t)
+	}
+	return out
 }
